@@ -225,6 +225,13 @@ Definition run_c06 (sub : N) (args : list (list N)) : list N :=
   | _, _ => bad_case
   end.
 
+(* C04: long-term key MD5(user:realm:password); 401 <user> <realm> <pass> *)
+Definition run_c04 (sub : N) (args : list (list N)) : list N :=
+  match sub, args with
+  | 1, [user; realm; pass] => long_term_key user realm pass
+  | _, _ => bad_case
+  end.
+
 (* C18: pooled HMAC histories.
    1801 <[algo]> <op> <op> ...   algo 1 = SHA-1, 256 = SHA-256
    op = [1; key...] acquire | [2; bytes...] write | [3; prefix...] sum | [4] reset | [5] put
@@ -270,6 +277,7 @@ Definition run (cmd : N) (args : list (list N)) : list N :=
   | 1 => run_c01 (cmd mod 100) args
   | 2 => run_c02 (cmd mod 100) args
   | 3 => run_c03 (cmd mod 100) args
+  | 4 => run_c04 (cmd mod 100) args
   | 6 => run_c06 (cmd mod 100) args
   | 7 => run_c07 (cmd mod 100) args
   | 18 => run_c18 (cmd mod 100) args
